@@ -18,7 +18,8 @@ use virtio_drivers::Error;
 
 pub const GUEST_CID: u64 = 0x42;
 pub const CAPACITY: u32 = 256;
-const PEERS: [(u64, u32); 3] = [(2, 1000), (2, 1001), (7, 1000)];
+// same CID / different port, and same port / CIDs that differ only above bit 31
+const PEERS: [(u64, u32); 3] = [(2, 1000), (2, 1001), (0x1_0000_0002, 1000)];
 const PORTS: [u32; 3] = [80, 81, 9000];
 
 #[derive(Clone, Debug, Serialize, Deserialize, PartialEq)]
